@@ -390,6 +390,41 @@ class FakeOs:
         self.fs.log.append(("mkdir", p))
 
 
+def clone_tree(node):
+    """deep copy of a stored file tree (datasets and attributes are copied, symbolic terms are shared)"""
+    if isinstance(node, Dataset):
+        d = Dataset(node.value, node._fs, node._path)
+        dict.update(d.attrs, {k: _copy(v) for k, v in node.attrs.items()})
+        return d
+    n = Node()
+    dict.update(n.attrs, {k: _copy(v) for k, v in node.attrs.items()})
+    for k, c in node.children.items():
+        n.children[k] = clone_tree(c)
+    return n
+
+
+class FakeShutil:
+    def __init__(self, fs):
+        self.fs = fs
+
+    def copy(self, src, dst):
+        src, dst = str(src), str(dst)
+        if self.fs.fault is not None:
+            self.fs.fault("copy", dst)
+        if src not in self.fs.files:
+            raise FileNotFoundError(src)
+        if dst in self.fs.dirs:
+            dst = posixpath.join(dst, posixpath.basename(src))
+        d = posixpath.dirname(dst)
+        if d and d not in self.fs.dirs:
+            raise FileNotFoundError(d)
+        self.fs.files[dst] = clone_tree(self.fs.files[src])
+        self.fs.log.append(("create", dst))
+        return dst
+
+    copy2 = copyfile = copy
+
+
 class FakePath:
     """pathlib.Path stand-in: only what DataHandler uses (parent.mkdir)."""
 
